@@ -99,7 +99,9 @@ func cmdCheck(args []string) int {
 	c := NewCheck(id, *tier, seed)
 	cfgs := []buildCfg{{"linux", "amd64", ""}}
 	if *tier == "thorough" {
-		cfgs = append(cfgs, buildCfg{"linux", "386", ""}, buildCfg{"windows", "amd64", ""}, buildCfg{"linux", "amd64", "examples"})
+		// (the examples directory is not a buildable package under its own build tag — every file
+		// declares main — so there is no "examples" configuration to load)
+		cfgs = append(cfgs, buildCfg{"linux", "386", ""}, buildCfg{"windows", "amd64", ""})
 	}
 	for _, bc := range cfgs {
 		w, err := Load(*repo, bc.goos, bc.goarch, bc.tags)
